@@ -191,6 +191,23 @@ func runC01(c *Ctx) {
 		}))
 	}
 	c.SetPlan("clients", plan)
+	// partition and heal: the network stops delivering for a while (shorter than every deadline in
+	// play) and then delivers again; this is not a fault that may cost a call - once it is over
+	// every call completes as if nothing had happened
+	if !faulty && t.Bool(20) && mode != "stdio" {
+		wait, d := t.Draw(150), []time.Duration{10 * time.Millisecond, time.Second, 20 * time.Second}[t.Draw(3)]
+		c.SetPlan("partition", d.String())
+		clientTasks = append(clientTasks, s.Go("partition", func() {
+			for i := 0; i < wait; i++ {
+				s.Yield("partition#wait")
+			}
+			s.Net.Stall(d)
+			s.Fault("net.partition")
+			s.Sleep(d)
+			s.Net.Unstall()
+			s.Fault("net.heal")
+		}))
+	}
 	// raw reference peers with chosen ids: strings, integers up to 2^53, equal-looking pairs in flight at once
 	type rawCall struct {
 		id    string // raw JSON of the id
